@@ -801,11 +801,15 @@ class MultipartReader:
             if params.get("name") == "_charset_":
                 # Longest encoding in https://encoding.spec.whatwg.org/encodings.json
                 # is 19 characters, so 32 should be more than enough for any valid encoding.
-                charset = await part.read_chunk(32)
+                # (a chunk cannot be shorter than the delimiter)
+                charset = await part.read_chunk(max(32, len(self._boundary) + 4))
                 if len(charset) > 31:
                     raise RuntimeError("Invalid default charset")
                 self._default_charset = charset.strip().decode()
-                part = await self.fetch_next_part()
+                # Go on behind this part: its delimiter has not been read yet,
+                # and it may have been the last one.
+                self._last_part = part
+                return await self.next()
         self._last_part = part
         return self._last_part
 
